@@ -747,11 +747,17 @@ impl RenderContext {
             return Err(Error::IncompleteFrame);
         }
 
-        let lf_frame_idx = self.lf_frame[header.lf_level as usize];
+        // The frame may be the one already loaded, and it might have replaced the references it
+        // used; use what the frame has seen.
+        let (lf_frame_idx, reference) = if let Some(deps) = self.frame_deps.get(frame.index()) {
+            (deps.lf, deps.ref_slots)
+        } else {
+            (self.lf_frame[header.lf_level as usize], self.reference)
+        };
         if header.flags.use_lf_frame() {
             self.spawn_renderer(lf_frame_idx);
         }
-        for idx in self.reference {
+        for idx in reference {
             if idx != usize::MAX {
                 self.spawn_renderer(idx);
             }
@@ -770,7 +776,7 @@ impl RenderContext {
                     frame: Arc::clone(&self.frames[lf_frame_idx]),
                     image: Arc::clone(&self.renders_narrow[lf_frame_idx]),
                 }),
-                refs: self.reference.map(|r| {
+                refs: reference.map(|r| {
                     (r != usize::MAX).then(|| Reference {
                         frame: Arc::clone(&self.frames[r]),
                         image: Arc::clone(&self.renders_narrow[r]),
@@ -832,7 +838,7 @@ impl RenderContext {
                     frame: Arc::clone(&self.frames[lf_frame_idx]),
                     image: Arc::clone(&self.renders_wide[lf_frame_idx]),
                 }),
-                refs: self.reference.map(|r| {
+                refs: reference.map(|r| {
                     (r != usize::MAX).then(|| Reference {
                         frame: Arc::clone(&self.frames[r]),
                         image: Arc::clone(&self.renders_wide[r]),
